@@ -3,7 +3,7 @@ C01, C02, C03, C07, C11, C12, C14."""
 import re
 
 import anchors
-from core import (BA, call_matches, callee_paths, op_local, op_place, op_const, const_int, place_fields, rvalue_places,
+from core import (BA, FA, call_matches, callee_paths, op_local, op_place, op_const, const_int, place_fields, rvalue_places,
                   field_writes, field_reads, taint)
 from rules import common
 from rules.C06 import backward_direct
@@ -17,6 +17,9 @@ class Dirt:
         self.D = anchors.dirtiness(prog)
         D = self.D
         self.ba = ba = BA.of(D)
+        # every path / dominance question below is asked over *feasible* paths (core.FA): the verdict may be
+        # routed through locals / Option / Result wrappers (a join followed by a re-split on the joined value)
+        self.fa = fa = FA.of(D)
         self.cb = {}
         for i in ba.all_calls():
             t = D.blocks[i]["term"]
@@ -33,14 +36,14 @@ class Dirt:
                         fld = fs[-1].split(".")[-1]
             if fld:
                 self.cb.setdefault(fld, []).append(i)
-        self.clean = common.verdict_returns(D, "Clean")
-        self.dirty = common.verdict_returns(D, "Dirty")
-        self.need = common.verdict_returns(D, "NeedTargets")
+        self.clean = common.verdict_origins(D, "Clean")
+        self.dirty = common.verdict_origins(D, "Dirty")
+        self.need = common.verdict_origins(D, "NeedTargets")
         self.memo_clean = []
         self.insp_clean = []
         chk = self.cb.get("is_checked", [])
         for c in self.clean:
-            if chk and any(ba.dominates(x, c) and not any(ba.dominates(y, c) for y in ba.calls(r"state::File::deps")) for x in chk):
+            if chk and any(fa.dominates(x, c) and not any(fa.dominates(y, c) for y in ba.calls(r"state::File::deps")) for x in chk):
                 self.memo_clean.append(c)
             else:
                 self.insp_clean.append(c)
@@ -63,7 +66,7 @@ class Dirt:
         dv = {v["name"]: v["discr"] for v in self.prog.adts["deps::Dirtiness"]["variants"]}
         for sw in sorted(self.ba.live):
             es = self.ba.enum_switch(sw)
-            if es and self.D.locals[es[0]["l"]] == "deps::Dirtiness" and any(self.ba.dominates(d, sw) for d in self.deps_calls):
+            if es and self.D.locals[es[0]["l"]] == "deps::Dirtiness" and any(self.fa.dominates(d, sw) for d in self.deps_calls):
                 out.append((sw, es[1], es[2], dv))
         return out
 
@@ -81,7 +84,7 @@ class Dirt:
 def inspected_clean_reasons(ctx, rid):
     """R1.1: every path to the inspected Clean verdict consults every dirtiness reason."""
     d = Dirt(ctx.prog)
-    D, ba = d.D, d.ba
+    D, ba, fa = d.D, d.ba, d.fa
     ctx.floor(rid, "Clean verdicts (memoised + inspected) in the dirtiness routine", len(d.clean), 2)
     if not ctx.ob(rid, "%s|one-inspected-Clean" % D.key, len(d.insp_clean) == 1 and len(d.memo_clean) == 1, where=D.span,
                   detail="%d inspected and %d memoised Clean verdicts" % (len(d.insp_clean), len(d.memo_clean))):
@@ -89,46 +92,68 @@ def inspected_clean_reasons(ctx, rid):
     target = d.insp_clean
     # failed_runid
     failed = [sw for sw in sorted(ba.live) if _tests_option_field(D, ba, sw, "state::File.failed_runid")]
-    common.mpt(ctx, rid, "%s|reason:failed-last-time" % D.key, D, [0], target, failed, "failed_runid is tested on every path to Clean",
+    common.mpt_f(ctx, rid, "%s|reason:failed-last-time" % D.key, D, [0], target, failed, "failed_runid is tested on every path to Clean",
                "Clean is reachable without testing failed_runid (a failed target would be reported up to date)")
     changed_none = [sw for sw in sorted(ba.live) if _discr_of_field(D, ba, sw, "state::File.changed_runid")]
-    common.mpt(ctx, rid, "%s|reason:never-built" % D.key, D, [0], target, changed_none, "changed_runid None/Some is tested on every path to Clean",
+    common.mpt_f(ctx, rid, "%s|reason:never-built" % D.key, D, [0], target, changed_none, "changed_runid None/Some is tested on every path to Clean",
                "Clean is reachable without testing whether the target was ever built")
     gt = []
     for sw in sorted(ba.live):
         bs = ba.bool_switch(sw)
         if bs and bs[2][0] == "binop" and bs[2][1][1]["op"] == "Gt" and common.reads_field(D, {"k": "use", "op": bs[2][1][1]["a"]}, "state::File.changed_runid"):
             gt.append(sw)
-    common.mpt(ctx, rid, "%s|reason:built-later-than-parent" % D.key, D, [0], target, gt, "changed_runid > max_changed is tested on every path to Clean",
+    common.mpt_f(ctx, rid, "%s|reason:built-later-than-parent" % D.key, D, [0], target, gt, "changed_runid > max_changed is tested on every path to Clean",
                "Clean is reachable without comparing changed_runid with the parent's run id")
     # stamp comparison: read_stamp and a `!=` / `==` on Stamp
-    ne = [sw for (sw, t_t, f_t, cbb) in ba.switches_on_call(r"<state::Stamp as core::cmp::PartialEq>::(ne|eq)|<&state::Stamp as core::cmp::PartialEq>::(ne|eq)|core::cmp::impls::<impl core::cmp::PartialEq<&B> for &A>::(ne|eq)")
-          if any(ba.dominates(r, sw) for r in d.read_stamp)]
-    common.mpt(ctx, rid, "%s|reason:stamp-mismatch" % D.key, D, [0], target, ne, "a fresh read_stamp is compared with the stored stamp on every path to Clean",
+    ne = [sw for (sw, eq_t, ne_t, cbb) in stamp_comparisons(D) if any(fa.dominates(r, sw) for r in d.read_stamp)]
+    common.mpt_f(ctx, rid, "%s|reason:stamp-mismatch" % D.key, D, [0], target, ne, "a fresh read_stamp is compared with the stored stamp on every path to Clean",
                "Clean is reachable without comparing the file's current stamp with the recorded one")
+    # ... and the comparison decides: on its `differs` side neither the dependency walk nor the inspected Clean
+    # verdict is reachable (per-site form of what the instance counts of R3.3 used to notice only by accident)
+    cmp_ = [(sw, eq_t, ne_t) for (sw, eq_t, ne_t, cbb) in stamp_comparisons(D)
+            if any(fa.dominates(r, sw) for r in d.read_stamp) and not _mentions_named(D, D.blocks[cbb]["term"], "state::Stamp::MISSING")]
+    common.not_reach_f(ctx, rid, "%s|reason:stamp-mismatch=>not-Clean" % D.key, D, [ne_t for (_, _, ne_t) in cmp_] or [0], target + d.deps_calls,
+                       "a stamp that differs from the recorded one never leads to the dependency walk / Clean", "a changed stamp can still end in Clean")
     nostamp = [sw for sw in sorted(ba.live) if _discr_of_call_field(D, ba, sw, "state::File.stamp")]
-    common.mpt(ctx, rid, "%s|reason:no-stamp" % D.key, D, [0], target, nostamp, "a missing stored stamp is tested on every path to Clean",
+    common.mpt_f(ctx, rid, "%s|reason:no-stamp" % D.key, D, [0], target, nostamp, "a missing stored stamp is tested on every path to Clean",
                "Clean is reachable without testing that a stamp was ever recorded")
-    common.mpt(ctx, rid, "%s|reason:dependencies-walked" % D.key, D, [0], target, d.deps_calls, "File::deps is iterated on every path to Clean",
+    common.mpt_f(ctx, rid, "%s|reason:dependencies-walked" % D.key, D, [0], target, d.deps_calls, "File::deps is iterated on every path to Clean",
                "Clean is reachable without looking at the recorded dependencies")
     # per iteration: the mode switch, with a recursive call on the Modified arm and exists() on the Created arm
     if ctx.ob(rid, "%s|deps-loop-mode-switch" % D.key, len(d.mode_sw) == 1, where=D.span, detail="%d switches on DepMode" % len(d.mode_sw)):
         sw, arms, other = d.mode_sw[0]
         m_t = arms.get(d.modified_val)
         c_t = arms.get(d.created_val)
-        nexts = [i for i in ba.calls(r".*::iterator::Iterator>?::next") if any(ba.dominates(x, i) for x in d.deps_calls)]
+        nexts = [i for i in ba.calls(r".*::iterator::Iterator>?::next") if any(fa.dominates(x, i) for x in d.deps_calls)]
         joins = _verdict_consumers(d)
-        common.mpt(ctx, rid, "%s|Modified=>recursive-verdict" % D.key, D, [m_t] if m_t is not None else [], joins, d.rec,
+        common.mpt_f(ctx, rid, "%s|Modified=>recursive-verdict" % D.key, D, [m_t] if m_t is not None else [], joins, d.rec,
                    "a Modified edge is judged by a recursive call before its verdict is consumed", "a Modified dependency is not re-evaluated recursively")
         ex = ba.calls(r"std::path::Path::exists")
-        common.mpt(ctx, rid, "%s|Created=>exists-test" % D.key, D, [c_t] if c_t is not None else [], joins, ex,
+        common.mpt_f(ctx, rid, "%s|Created=>exists-test" % D.key, D, [c_t] if c_t is not None else [], joins, ex,
                    "a Created edge is judged by an existence test", "a Created (ifcreate) dependency is not tested for existence")
     return d
 
 
+def stamp_comparisons(D):
+    """[(switch, equal-edge target, differ-edge target, call block)] branches on a `==` / `!=` between
+    state::Stamp values, however the comparison is spelled (`a == b`, `a != b`, `&a == &b`, the derived `eq`
+    or the provided `ne`, negated or not)."""
+    ba = BA.of(D)
+    out = []
+    for (sw, t_t, f_t, cbb) in ba.switches_on_call(r".*core::cmp::PartialEq(<.*>)?( for .*)?>?::(eq|ne)|core::cmp::PartialEq::(eq|ne)"):
+        t = D.blocks[cbb]["term"]
+        if not all(re.fullmatch(r"&*(state::Stamp)", ty.replace(" ", "")) for ty in t.get("arg_tys", [])) or len(t.get("arg_tys", [])) != 2:
+            continue
+        if any(p_.endswith("::ne") for p_ in callee_paths(t)):
+            out.append((sw, f_t, t_t, cbb))
+        else:
+            out.append((sw, t_t, f_t, cbb))
+    return out
+
+
 def _verdict_consumers(d):
     """Blocks where the per-dependency verdict is consumed: the `f.checksum().is_empty()` test in the loop."""
-    return [sw for (sw, _, _) in d.checksum_empty_switches() if any(d.ba.dominates(x, sw) for x in d.deps_calls)]
+    return [sw for (sw, _, _) in d.checksum_empty_switches() if any(d.fa.dominates(x, sw) for x in d.deps_calls)]
 
 
 def _tests_option_field(D, ba, sw, field):
@@ -176,45 +201,91 @@ def _discr_of_call_field(D, ba, sw, field):
 def nonclean_propagates(ctx, rid):
     """R1.2: a non-Clean verdict of a dependency never ends in the parent's Clean verdict."""
     d = Dirt(ctx.prog)
-    D, ba = d.D, d.ba
+    D, ba, fa = d.D, d.ba, d.fa
     vs = d.verdict_switches()
-    ctx.floor(rid, "switches on the per-dependency verdict", len(vs), 2)
+    # how many times the source spells `match dirty` is not the property (one match with a guard, or one per
+    # checksum side, are the same mechanism): there must be at least one dispatch on the verdict, and - the
+    # per-site form of the old count - no way from the recursive judgement of a dependency to the next
+    # iteration / the Clean verdict that skips every dispatch (plain and checksummed parents alike)
+    ctx.floor(rid, "switches on the per-dependency verdict", len(vs), 1)
     ext = ba.calls(r"alloc::vec::Vec::extend|<alloc::vec::Vec<.*> as core::iter::traits::collect::Extend<.*>>::extend")
-    nexts = [i for i in ba.calls(r".*::iterator::Iterator>?::next") if any(ba.dominates(x, i) for x in d.deps_calls)]
+    nexts = [i for i in ba.calls(r".*::iterator::Iterator>?::next") if any(fa.dominates(x, i) for x in d.deps_calls)]
+    common.mpt_f(ctx, rid, "%s|every-dependency-verdict-dispatched" % D.key, D, d.rec, nexts + d.insp_clean, [x[0] for x in vs],
+                 "after the recursive judgement of a dependency every path to the next iteration / Clean dispatches on its verdict",
+                 "a dependency's verdict can be ignored (some path from the recursive call to the next iteration or to Clean has no dispatch on it)", incl=False)
     for k, (sw, arms, other, dv) in common.ordinal_keys([("verdict-switch", v) for v in vs]):
         dt = arms.get(dv["Dirty"])
         nt = arms.get(dv["NeedTargets"])
-        common.not_reach(ctx, rid, "%s|%s|Dirty-arm-returns" % (D.key, k), D, [dt] if dt is not None else [0], nexts + d.insp_clean,
+        common.not_reach_f(ctx, rid, "%s|%s|Dirty-arm-returns" % (D.key, k), D, [dt] if dt is not None else [0], nexts + d.insp_clean,
                          "a Dirty dependency makes the parent return at once (Dirty / NeedTargets)", "after a Dirty dependency the loop continues and may end in Clean")
-        common.mpt(ctx, rid, "%s|%s|NeedTargets-arm-accumulates" % (D.key, k), D, [nt] if nt is not None else [], nexts + d.insp_clean, ext,
+        common.mpt_f(ctx, rid, "%s|%s|NeedTargets-arm-accumulates" % (D.key, k), D, [nt] if nt is not None else [], nexts + d.insp_clean, ext,
                    "an uncertain dependency is added to must_build", "an uncertain (NeedTargets) dependency is dropped")
-    # the sub-verdict of a Modified dependency reaches the switch: `if !sub.is_clean() { dirty = sub }`
+    # the sub-verdict of a Modified dependency reaches the switch (`if !sub.is_clean() { dirty = sub }`, or the
+    # value of an if/match expression, or a helper's result): the place every verdict switch dispatches on has the
+    # recursive call's Ok payload among its value origins, and on the not-clean side of `is_clean()` that
+    # payload is what arrives (no path from there to the switch on which the verdict is known to be Clean)
+    rec = set(d.rec)
+    flows = bool(vs)
+    for (sw, arms, other, dv) in vs:
+        pl = ba.enum_switch(sw)[0]
+        org = common.value_origins(D, pl["l"]) if not pl["p"] else []
+        flows = flows and any(o[0] == "callpay" and o[1] in rec for o in org)
     isclean = ba.switches_on_call(r"deps::Dirtiness::is_clean")
-    ok = False
+    kept = bool(isclean)
     for (sw, t_t, f_t, cbb) in isclean:
-        # on the not-clean edge the verdict variable is assigned before the verdict switch
-        r = ba.reach_incl([f_t], avoid=frozenset(x[0] for x in vs))
-        ok = any(s["s"] == "assign" and not s["place"]["p"] and D.locals[s["place"]["l"]] == "deps::Dirtiness" and s["rv"]["k"] == "use"
-                 for b in r for s in D.blocks[b]["stmts"])
+        for (vsw, arms, other, dv) in vs:
+            # starting on the not-clean edge the verdict arriving at the dispatch must not be a freshly built Clean
+            kept = kept and _not_clean_side_keeps(d, f_t, vsw, nexts)
+    ok = flows and kept
     ctx.ob(rid, "%s|sub-verdict-kept" % D.key, ok, where=D.span, detail="a non-clean recursive verdict is stored in the per-dependency verdict" if ok else "the recursive verdict is discarded")
     # final Clean is dominated by must_build.is_empty()
     emp = ba.switches_on_call(r"alloc::vec::Vec::is_empty")
     ok = False
     for (sw, t_t, f_t, cbb) in emp:
-        if d.insp_clean and ba.edge_dominates((sw, t_t), d.insp_clean[0]):
+        if d.insp_clean and fa.edge_dominates((sw, t_t), d.insp_clean[0]):
             ok = True
     ctx.ob(rid, "%s|Clean-only-if-nothing-uncertain" % D.key, ok, where=D.span,
            detail="the inspected Clean verdict is dominated by must_build.is_empty()" if ok else "Clean can be returned although uncertain dependencies were collected")
+
+
+def _not_clean_side_keeps(d, f_t, vsw, nexts):
+    """From the not-clean edge of `sub.is_clean()` no feasible path (within the iteration) reaches the verdict
+    switch `vsw` with the switched local known to hold a `Clean` aggregate: walk (block, env) states of core.FA
+    from f_t and look at the value of the switched place on arrival."""
+    D, ba, fa = d.D, d.ba, d.fa
+    pl = ba.enum_switch(vsw)[0]
+    if pl["p"]:
+        return False
+    seen = set()
+    todo = [(f_t, ())]
+    while todo:
+        st = todo.pop()
+        if st in seen:
+            continue
+        seen.add(st)
+        if len(seen) > fa.STATE_CAP:
+            return False
+        if st[0] in nexts:
+            continue
+        if st[0] == vsw:
+            # value of the switched local after the block's own statements
+            v = fa.env_before_term(vsw, st[1]).get(pl["l"])
+            if v is not None and v[0] == "v" and v[2] == "Clean":
+                return False
+            continue
+        for n in fa.step(st[0], st[1]):
+            todo.append(n)
+    return True
 
 
 def memoisation(ctx, rid):
     """R2.4"""
     prog = ctx.prog
     d = Dirt(prog)
-    D, ba = d.D, d.ba
+    D, ba, fa = d.D, d.ba, d.fa
     sc = d.cb.get("set_checked", [])
     ic = d.cb.get("is_checked", [])
-    common.mpt(ctx, rid, "%s|Clean=>set_checked" % D.key, D, [0], d.insp_clean, sc, "the inspected Clean verdict is memoised through the set_checked callback",
+    common.mpt_f(ctx, rid, "%s|Clean=>set_checked" % D.key, D, [0], d.insp_clean, sc, "the inspected Clean verdict is memoised through the set_checked callback",
                "a clean verdict is not memoised: every later request in this run re-walks (and with redo-stamp re-judges) the target")
     if ctx.ob(rid, "%s|is_checked-callback" % D.key, len(ic) == 1, where=D.span, detail="%d is_checked callback calls" % len(ic)):
         failed = [sw for sw in sorted(ba.live) if _tests_option_field(D, ba, sw, "state::File.failed_runid")]
@@ -224,9 +295,9 @@ def memoisation(ctx, rid):
             bs = ba.bool_switch(sw)
             if bs and bs[2][0] == "binop" and bs[2][1][1]["op"] == "Gt" and common.reads_field(D, {"k": "use", "op": bs[2][1][1]["a"]}, "state::File.changed_runid"):
                 gtc.append(sw)
-        after = all(ba.dominates(x, ic[0]) for x in failed + gt) and bool(failed) and bool(gt) and bool(gtc) and \
-            ba.path([0], ic, avoid=frozenset(gtc) | frozenset(d.dirty), incl=True) is None
-        before = all(ba.dominates(ic[0], r) for r in d.read_stamp) and bool(d.read_stamp)
+        after = all(fa.dominates(x, ic[0]) for x in failed + gt) and bool(failed) and bool(gt) and bool(gtc) and \
+            fa.path([0], ic, avoid=frozenset(gtc) | frozenset(d.dirty), incl=True) is None
+        before = all(fa.dominates(ic[0], r) for r in d.read_stamp) and bool(d.read_stamp)
         ctx.ob(rid, "%s|is_checked-after-failed/changed-before-stamp" % D.key, after and before, where=ctx.where(D, ic[0]),
                detail="memo lookup sits after the failed/changed tests and before the stamp test" if after and before else "memo lookup is misplaced")
         sws = []
@@ -234,7 +305,7 @@ def memoisation(ctx, rid):
             bs = ba.bool_switch(sw)
             if bs and bs[2][0] == "call" and bs[2][1][0] == ic[0]:
                 sws.append((sw, bs[0], bs[1]))
-        ok = len(sws) == 1 and d.memo_clean and ba.edge_dominates((sws[0][0], sws[0][1]), d.memo_clean[0]) and not ba.edge_dominates((sws[0][0], sws[0][1]), d.insp_clean[0])
+        ok = len(sws) == 1 and d.memo_clean and fa.edge_dominates((sws[0][0], sws[0][1]), d.memo_clean[0]) and not fa.edge_dominates((sws[0][0], sws[0][1]), d.insp_clean[0])
         ctx.ob(rid, "%s|memoised-Clean-only-when-checked" % D.key, bool(ok), where=D.span, detail="memoised Clean is returned exactly on the is_checked == true edge")
     dflt = prog.one(r"<deps::DirtyCallbacks<'a> as core::default::Default>::default|<deps::DirtyCallbacks as core::default::Default>::default")
     fns = set()
@@ -264,7 +335,7 @@ def memoisation(ctx, rid):
 def memo_placement(ctx, rid):
     """The is_checked memo is consulted after the failed / changed tests and before the stamp test."""
     d = Dirt(ctx.prog)
-    D, ba = d.D, d.ba
+    D, ba, fa = d.D, d.ba, d.fa
     ic = d.cb.get("is_checked", [])
     if not ctx.ob(rid, "%s|is_checked-callback" % D.key, len(ic) == 1, where=D.span, detail="%d is_checked callback calls" % len(ic)):
         return
@@ -275,9 +346,9 @@ def memo_placement(ctx, rid):
         bs = ba.bool_switch(sw)
         if bs and bs[2][0] == "binop" and bs[2][1][1]["op"] == "Gt" and common.reads_field(D, {"k": "use", "op": bs[2][1][1]["a"]}, "state::File.changed_runid"):
             gt.append(sw)
-    after = bool(failed) and bool(disc) and bool(gt) and all(ba.dominates(x, ic[0]) for x in failed + disc) and \
-        ba.path([0], ic, avoid=frozenset(gt) | frozenset(d.dirty), incl=True) is None
-    before = all(ba.dominates(ic[0], r) for r in d.read_stamp) and bool(d.read_stamp)
+    after = bool(failed) and bool(disc) and bool(gt) and all(fa.dominates(x, ic[0]) for x in failed + disc) and \
+        fa.path([0], ic, avoid=frozenset(gt) | frozenset(d.dirty), incl=True) is None
+    before = all(fa.dominates(ic[0], r) for r in d.read_stamp) and bool(d.read_stamp)
     ctx.ob(rid, "%s|memo-after-changed-test-before-stamp" % D.key, after and before, where=ctx.where(D, ic[0]),
            detail="the memo lookup is reached only through the `changed_runid > max_changed` test (or a Dirty return) and precedes the stamp test" if after and before else
            "the memo lookup can be reached without comparing changed_runid with the parent's: a dependency rebuilt later than an (older) parent is reported clean to it")
@@ -287,37 +358,82 @@ def checksum_verdicts(ctx, rid):
     """R3.3: for a checksummed file, a changed stamp or dirty dependency yields NeedTargets([f]),
     never Dirty; Dirty after the stamp read only for files without a checksum."""
     d = Dirt(ctx.prog)
-    D, ba = d.D, d.ba
+    D, ba, fa = d.D, d.ba, d.fa
     cs = d.checksum_empty_switches()
     ctx.floor(rid, "tests of checksum().is_empty()", len(cs), 2)
-    after = [x for x in d.dirty if any(ba.dominates(r, x) for r in d.read_stamp)]
+    after = [x for x in d.dirty if any(fa.dominates(r, x) for r in d.read_stamp)]
     ctx.floor(rid, "Dirty verdicts after the stamp read", len(after), 2)
     for k, x in common.ordinal_keys([("Dirty-after-stamp", x) for x in after]):
-        ok = any(ba.edge_dominates((sw, e_t), x) and e_t != n_t for (sw, e_t, n_t) in cs)
+        ok = any(fa.edge_dominates((sw, e_t), x) and e_t != n_t for (sw, e_t, n_t) in cs)
         ctx.ob(rid, "%s|%s|only-without-checksum" % (D.key, k), ok, where=ctx.where(D, x),
                detail="Dirty is returned only on the checksum().is_empty() side" if ok else "a checksummed target is declared Dirty outright: its dependents are rebuilt even if the checksum turns out unchanged")
     for k, (sw, e_t, n_t) in common.ordinal_keys([("checksum-test", c) for c in cs]):
         # the non-empty side must not reach a Dirty verdict before the next loop iteration; it yields NeedTargets carrying f
-        nexts = [i for i in ba.calls(r".*::iterator::Iterator>?::next") if any(ba.dominates(x, i) for x in d.deps_calls)]
-        p = ba.path([n_t], d.dirty, avoid=frozenset(nexts), incl=True)
-        own = [x for x in d.need if ba.edge_dominates((sw, n_t), x)]
+        nexts = [i for i in ba.calls(r".*::iterator::Iterator>?::next") if any(fa.dominates(x, i) for x in d.deps_calls)]
+        # a second test of the same file's checksum reached from this side with nothing in between that could
+        # change the file (the same pure getter evaluated again, e.g. inside a helper that decides
+        # "Dirty or NeedTargets(self)" on its own) has the same outcome: its `empty` edge is not a path from here
+        cut = frozenset((sw2, e2) for (sw2, e2, n2) in cs if sw2 != sw and _same_test_again(d, sw, n_t, sw2, nexts))
+        p = fa.path([n_t], d.dirty, avoid=frozenset(nexts), cut_edges=cut, incl=True)
+        own = [x for x in d.need if fa.edge_dominates((sw, n_t), x)]
         carries_f = False
         for x in own:
-            io = [i for i in ba.calls(r"deps::MutOrOwned::into_owned") if ba.dominates(i, x) and ba.edge_dominates((sw, n_t), i)]
+            io = [i for i in ba.calls(r"deps::MutOrOwned::into_owned") if fa.dominates(i, x) and fa.edge_dominates((sw, n_t), i)]
             carries_f = carries_f or bool(io)
-        ctx.ob(rid, "%s|%s|checksummed=>NeedTargets(self)" % (D.key, k), p is None and (carries_f or not _reaches_any(ba, n_t, d.need, nexts)), where=ctx.where(D, sw),
+        ctx.ob(rid, "%s|%s|checksummed=>NeedTargets(self)" % (D.key, k), p is None and (carries_f or not _reaches_any(fa, n_t, d.need, nexts)), where=ctx.where(D, sw),
                detail="on the checksummed side the verdict is NeedTargets carrying the file itself" if p is None else "checksummed side can return Dirty")
 
 
-def _reaches_any(ba, start, goals, avoid):
-    return ba.path([start], goals, avoid=frozenset(avoid), incl=True) is not None
+def _checksum_receiver_slice(d, sw):
+    """Backward slice (locals) of the receiver of the File::checksum call tested at switch `sw`."""
+    D, ba = d.D, d.ba
+    bs = ba.bool_switch(sw)
+    if not bs or bs[2][0] != "call":
+        return set()
+    t = D.blocks[bs[2][1][0]]["term"]
+    _, org, _ = backward_direct(D, op_local(t["args"][0]))
+    out = set()
+    for o in org:
+        if o[0] == "call" and call_matches(o[2], r"state::File::checksum"):
+            sl, _, _ = backward_direct(D, op_local(o[2]["args"][0]))
+            out |= {l for l in sl if l is not None}
+    return out
+
+
+def _same_test_again(d, sw, n_t, sw2, nexts):
+    """Is the checksum test at sw2 a re-evaluation of the test at sw on its non-empty side: only reachable
+    through that side, on the same File object, and with no write in between (no assignment through a
+    projection, no call that is handed a `&mut`)?"""
+    D, ba, fa = d.D, d.ba, d.fa
+    if not fa.edge_dominates((sw, n_t), sw2):
+        return False
+    a, b = _checksum_receiver_slice(d, sw), _checksum_receiver_slice(d, sw2)
+    if not any("state::File" in D.locals[l] for l in a & b):
+        return False
+    region = fa.reach_incl([n_t], avoid=frozenset(nexts) | frozenset([sw2]))
+    for x in region:
+        if ba.path([x], [sw2], avoid=frozenset(nexts), incl=True) is None:
+            continue
+        blk = D.blocks[x]
+        if any(s["s"] == "assign" and s["place"]["p"] for s in blk["stmts"]):
+            return False
+        t = blk["term"]
+        if t["t"] == "call" and any(ty.startswith("&mut ") or ty.startswith("core::pin::Pin<&mut") for ty in t.get("arg_tys", [])):
+            return False
+        if t["t"] not in ("call", "goto", "switch", "drop"):
+            return False
+    return True
+
+
+def _reaches_any(fa, start, goals, avoid):
+    return fa.path([start], goals, avoid=frozenset(avoid), incl=True) is not None
 
 
 def forget_missing_target(ctx, rid):
     """R11.5: a generated target that vanished is forgotten (is_generated := false, saved), only when
     the new stamp is MISSING."""
     d = Dirt(ctx.prog)
-    D, ba = d.D, d.ba
+    D, ba, fa = d.D, d.ba, d.fa
     w = field_writes(D, r"state::File\.is_generated")
     saves = ba.calls(r"state::File::save")
     ok = False
@@ -327,12 +443,13 @@ def forget_missing_target(ctx, rid):
         c = op_const(w[0][2]["rv"].get("op")) if w[0][2]["rv"]["k"] == "use" else None
         is_false = c is not None and c.get("bool") is False
         # dominated by `newstamp == MISSING` true edge
-        miss = [(sw, t_t, f_t) for (sw, t_t, f_t, cbb) in ba.switches_on_call(r"<state::Stamp as core::cmp::PartialEq>::eq")
+        # `newstamp == MISSING` (true edge) or `newstamp != MISSING` (false edge): (sw, edge on which it is MISSING, other)
+        miss = [(sw, eq_t, ne_t) for (sw, eq_t, ne_t, cbb) in stamp_comparisons(D)
                 if _mentions_named(D, D.blocks[cbb]["term"], "state::Stamp::MISSING")]
         miss += [(sw, t_t, f_t) for (sw, t_t, f_t, cbb) in ba.switches_on_call(r"state::Stamp::is_missing")]
-        dom = any(ba.edge_dominates((sw, t_t), wb) for (sw, t_t, f_t) in miss)
-        saved = saves and ba.path([wb], ba.returns(), avoid=frozenset(saves), incl=True) is None
-        gen = any(ba.edge_dominates((sw, t_t), wb) for (sw, t_t, f_t, cbb) in ba.switches_on_call(r"state::File::is_generated"))
+        dom = any(fa.edge_dominates((sw, t_t), wb) for (sw, t_t, f_t) in miss)
+        saved = saves and fa.path([wb], ba.returns(), avoid=frozenset(saves), incl=True) is None
+        gen = any(fa.edge_dominates((sw, t_t), wb) for (sw, t_t, f_t, cbb) in ba.switches_on_call(r"state::File::is_generated"))
         ok = is_false and dom and saved and gen
         det = "is_generated := false is saved, only for a generated file whose new stamp is MISSING" if ok else \
             "forgetting a vanished target is not (false=%s, under MISSING=%s, under is_generated=%s, saved=%s)" % (is_false, dom, gen, bool(saved))
@@ -360,30 +477,50 @@ def _mentions_named(D, t, named):
 def visited_set(ctx, rid):
     """R12.5: cycle detection in the recorded graph walk."""
     d = Dirt(ctx.prog)
-    D, ba = d.D, d.ba
-    cont = [(sw, t_t, f_t, cbb) for (sw, t_t, f_t, cbb) in ba.switches_on_call(r"std::collections::hash::set::HashSet::contains")]
+    D, ba, fa = d.D, d.ba, d.fa
+    params = set(range(1, D.arg_count + 1))
+    # the cycle test: `contains` on the visited set the *caller handed in* (a parameter, or a field of a parameter
+    # struct), outside any configuration-only code (a debug_assert! that re-checks membership is not the test)
+    cont = []
+    for (sw, t_t, f_t, cbb) in ba.switches_on_call(r"std::collections::hash::set::HashSet::contains"):
+        if ba.config_guards(cbb):
+            continue
+        sl, _, _ = backward_direct(D, op_local(D.blocks[cbb]["term"]["args"][0]))
+        ps = {l for l in sl if l in params}
+        if ps:
+            cont.append((sw, t_t, f_t, cbb, ps))
     ok = False
-    if cont:
-        sw, t_t, f_t, cbb = cont[0]
-        errs = [i for i in common.blocks_with_agg(D, r"error::RedoErrorKind", "CyclicDependency")]
-        first = all(ba.dominates(cbb, x) for x in ba.all_calls() if x != cbb and not call_matches(D.blocks[x]["term"], r".*(deref|deref_mut|File::id|Deref::deref)"))
-        p = ba.path([t_t], ba.returns(), avoid=frozenset(errs), incl=True)
-        ok = bool(errs) and p is None and first
+    set_params = set()
+    errs = [i for i in common.blocks_with_agg(D, r"error::RedoErrorKind", "CyclicDependency")]
+    for (sw, t_t, f_t, cbb, ps) in cont:
+        # nothing happens before the test except reading the file's identity (getters / derefs) and
+        # configuration-only code (debug_assert! conditions: they run under `cfg!(debug_assertions)` only)
+        first = all(fa.dominates(cbb, x) or bool(ba.config_guards(x)) for x in ba.all_calls()
+                    if x != cbb and not call_matches(D.blocks[x]["term"], r".*(deref|deref_mut|File::id|Deref::deref)"))
+        p = fa.path([t_t], ba.returns(), avoid=frozenset(errs), incl=True)
+        if bool(errs) and p is None and first:
+            ok = True
+            set_params |= ps
     ctx.ob(rid, "%s|visited-test-first=>CyclicDependency" % D.key, ok, where=D.span,
            detail="the visited-set test is the first action and its true side returns CyclicDependency" if ok else "cycle test missing, late, or not returning CyclicDependency")
-    ins = ba.calls(r"std::collections::hash::set::HashSet::insert")
-    ok = bool(ins) and bool(d.rec) and all(any(ba.dominates(i, r) for i in ins) for r in d.rec)
+    ins = [i for i in ba.calls(r"std::collections::hash::set::HashSet::insert") if not ba.config_guards(i)]
+    ok = bool(ins) and bool(d.rec) and all(any(fa.dominates(i, r) for i in ins) for r in d.rec)
     ctx.ob(rid, "%s|own-id-inserted-before-recursion" % D.key, ok, where=D.span, detail="the file's id is inserted into the visited set before any recursive call")
     ok = False
-    if ins and d.rec:
+    if ins and d.rec and set_params:
         t = D.blocks[ins[0]]["term"]
         ext_local = ba.base_local_of_ref(op_local(t["args"][0]))
         ext_alias = taint(D, seeds={ext_local}, mode="direct")
         ok = True
         for r in d.rec:
             rt = D.blocks[r]["term"]
-            # argument #5 (index 4) is `already_checked`
-            hit = any(op_local(a) in ext_alias or any(x in ext_alias for x in ba.ref_chain(op_local(a))) for a in rt["args"] if op_local(a) is not None and "HashSet" in (D.locals[op_local(a)]))
+            # the argument in the position of the visited set (the parameter the cycle test reads: a set, or a
+            # struct carrying it) is, or directly contains a reference to, the extended set
+            hit = False
+            for k in set_params:
+                if k - 1 < len(rt["args"]):
+                    al = op_local(rt["args"][k - 1])
+                    hit = hit or (al is not None and (al in ext_alias or any(x in ext_alias for x in ba.ref_chain(al))))
             ok = ok and hit
     ctx.ob(rid, "%s|recursion-gets-extended-set" % D.key, ok, where=D.span, detail="the recursive call receives the extended visited set" if ok else "the recursive call is given the un-extended set: a cycle in the recorded graph recurses forever")
 
@@ -391,13 +528,13 @@ def visited_set(ctx, rid):
 def created_edge_rule(ctx, rid):
     """R14.2: a Created edge is Dirty exactly on the true edge of exists(base.join(name))."""
     d = Dirt(ctx.prog)
-    D, ba = d.D, d.ba
+    D, ba, fa = d.D, d.ba, d.fa
     if not d.mode_sw:
         ctx.ob(rid, "%s|mode-switch" % D.key, False, where=D.span, detail="no switch on DepMode")
         return
     sw, arms, other = d.mode_sw[0]
     c_t = arms.get(d.created_val)
-    ex = [(s, t_t, f_t, cbb) for (s, t_t, f_t, cbb) in ba.switches_on_call(r"std::path::Path::exists") if c_t is not None and ba.edge_dominates((sw, c_t), s)]
+    ex = [(s, t_t, f_t, cbb) for (s, t_t, f_t, cbb) in ba.switches_on_call(r"std::path::Path::exists") if c_t is not None and fa.edge_dominates((sw, c_t), s)]
     if not ctx.ob(rid, "%s|Created-arm-exists-test" % D.key, len(ex) == 1, where=D.span, detail="%d existence tests on the Created arm" % len(ex)):
         return
     s, t_t, f_t, cbb = ex[0]
@@ -414,8 +551,8 @@ def created_edge_rule(ctx, rid):
                     if st["rv"]["k"] == "agg" and st["rv"].get("variant") == "Dirty":
                         return True
         return False
-    tside = ba.reach_incl([t_t], avoid=frozenset(joins))
-    fside = ba.reach_incl([f_t], avoid=frozenset(joins)) - tside
+    tside = fa.reach_incl([t_t], avoid=frozenset(joins))
+    fside = fa.reach_incl([f_t], avoid=frozenset(joins)) - tside
     ok = assigns_dirty(tside) and not assigns_dirty(fside)
     ctx.ob(rid, "%s|Created-dirty-iff-exists" % D.key, ok, where=ctx.where(D, s),
            detail="the Created edge sets Dirty exactly when the path exists" if ok else "the Created (ifcreate) edge is not dirty exactly when the path exists")
